@@ -343,6 +343,7 @@ type exec struct {
 
 	step   int
 	failed bool
+	stuck  bool // the write-behind queue did not drain (reported as inconclusive); the history was abandoned
 
 	// what happened (for non-triviality)
 	evictions, flushes, reopens, realDeletes, dbReads, restarts int
@@ -681,24 +682,49 @@ func (e *exec) rebase(sel int, how string) bool {
 	return true
 }
 
-func (e *exec) waitIdle() {
-	deadline := time.Now().Add(10 * time.Second) // watchdog only
-	for !e.db.VerifQueueIdle() {
-		if time.Now().After(deadline) {
-			e.c.Inconclusive("write-behind queue did not become idle within 10s")
-			return
+// pending is the number of records the write-behind queue has not yet handed to the store.
+func (e *exec) pending() int {
+	q := e.db.Beansdb.Queue
+	q.IndexRW.Lock()
+	defer q.IndexRW.Unlock()
+	return len(q.Index)
+}
+
+// waitIdle waits for the write-behind queue to drain. Watchdog only (never an oracle): it
+// gives up when the backlog has not shrunk for 30s or after 5 minutes in total; a loaded
+// machine with slow fsync is not a reason to give up as long as the backlog moves.
+func (e *exec) waitIdle() bool {
+	start := time.Now()
+	last, lastChange := -1, start
+	for {
+		n := e.pending()
+		if n == 0 && e.db.VerifQueueIdle() {
+			return true
+		}
+		now := time.Now()
+		if n != last {
+			last, lastChange = n, now
+		}
+		if now.Sub(lastChange) > 30*time.Second || now.Sub(start) > 5*time.Minute {
+			e.c.Inconclusive(fmt.Sprintf("write-behind queue did not drain: %d records pending, unchanged for %.0fs, waited %.0fs in total",
+				n, now.Sub(lastChange).Seconds(), now.Sub(start).Seconds()))
+			return false
 		}
 		time.Sleep(time.Millisecond)
 	}
 }
 
-func (e *exec) closeDB() {
+func (e *exec) closeDB() bool {
 	// Close() does not wait for the write-behind goroutines: quiesce first, as a real restart
 	// (a new process) would find the files.
-	e.waitIdle()
+	if !e.waitIdle() {
+		e.stuck = true
+		return false
+	}
 	time.Sleep(20 * time.Millisecond)
 	_ = e.db.Close()
 	time.Sleep(20 * time.Millisecond)
+	return true
 }
 
 // ---------------------------------------------------------------------------------------
@@ -914,7 +940,9 @@ func runTrie(c *run.Ctx, cs *TrieCase, origin string, index int) (ok bool) {
 	e.db = store.NewChainDataBase(e.dir)
 	defer func() {
 		if e.db != nil {
-			e.waitIdle()
+			if !e.stuck {
+				e.waitIdle()
+			}
 			_ = e.db.Close()
 		}
 		_ = os.RemoveAll(e.dir)
@@ -1019,7 +1047,10 @@ func runTrie(c *run.Ctx, cs *TrieCase, origin string, index int) (ok bool) {
 		case opSwap:
 			e.rebase(op.N, "new-triedb")
 		case opRestart:
-			e.closeDB()
+			if !e.closeDB() {
+				e.failed = true // abandoned, not a violation
+				break
+			}
 			e.db = store.NewChainDataBase(e.dir)
 			e.restarts++
 			c.Stat("database_restarts", 1)
